@@ -14,6 +14,7 @@ import (
 	"google.golang.org/genproto/googleapis/api/annotations"
 	"google.golang.org/genproto/googleapis/api/serviceconfig"
 	healthpb "google.golang.org/grpc/health/grpc_health_v1"
+	"google.golang.org/protobuf/proto"
 	"google.golang.org/protobuf/reflect/protoreflect"
 	lhealth "larking.io/health"
 	"larking.io/larking"
@@ -45,6 +46,12 @@ type CfgRule struct {
 // CfgCase is a replayable C19 configuration.
 type CfgCase struct {
 	Rules []CfgRule `json:"rules"`
+	// Own, when set, is a google.api.http annotation method OwnMethod carries
+	// in its proto file on the service-config side. It lands on the route of
+	// one of the configuration's rules (same verb, same pattern, other field
+	// names / body): the configured rule must still behave as written.
+	Own       *RuleSpec `json:"own_annotation,omitempty"`
+	OwnMethod int       `json:"own_method,omitempty"`
 }
 
 // modelBinds is the reference: which methods a selector covers.
@@ -199,7 +206,11 @@ func execCfg(r *mon.Run, c *CfgCase, rng *rand.Rand) {
 		r.Inconclusive("harness: " + err.Error())
 		return
 	}
-	B, err := buildSC(nil, c.Rules)
+	var own map[int][]RuleSpec
+	if c.Own != nil {
+		own = map[int][]RuleSpec{c.OwnMethod: {*c.Own}}
+	}
+	B, err := buildSC(own, c.Rules)
 	if err != nil {
 		r.Inconclusive("harness: " + err.Error())
 		return
@@ -265,7 +276,9 @@ func execCfg(r *mon.Run, c *CfgCase, rng *rand.Rand) {
 			}
 			if !oa.Same(ob) || oa.Body != ob.Body {
 				cls := "bound-to-unselected-method"
-				if ob.Method == "" {
+				if c.Own != nil {
+					cls = "overridden-by-colliding-annotation"
+				} else if ob.Method == "" {
 					cls = "selected-method-not-bound"
 				} else if oa.Method == ob.Method {
 					cls = "behaves-differently-from-annotation"
@@ -344,14 +357,75 @@ func RunC19(r *mon.Run) {
 		}
 		execCfg(r, c, rng)
 	}
+	// a configured rule on the route of the method's own annotation
+	var single []string
+	for _, sel := range pool {
+		if len(modelBinds(sel)) == 1 {
+			single = append(single, sel)
+		}
+	}
+	for i := 0; i < r.Pick(120, 3000); i++ {
+		sel := single[rng.Intn(len(single))]
+		cr := cfgRuleTemplates(7, rng)
+		t, err := tmplref.Parse(cr.Tmpl)
+		if err != nil || !strings.Contains(cr.Tmpl, "{") {
+			continue
+		}
+		own := RuleSpec{Verb: cr.Verb, Tmpl: renameVars(t, rng), Body: map[string]string{"": "*", "*": "", "sub": "*"}[cr.Body]}
+		if own.Verb == "GET" || own.Verb == "HEAD" || own.Verb == "DELETE" {
+			own.Body = ""
+		}
+		if own.Tmpl == cr.Tmpl && own.Body == cr.Body {
+			continue
+		}
+		r.Count("colliding_annotation_cases", 1)
+		execCfg(r, &CfgCase{Rules: []CfgRule{{Selector: sel, Rule: cr}}, Own: &own, OwnMethod: modelBinds(sel)[0]}, rng)
+	}
 	healthz(r, rng)
 	r.Assume("selectors are syntactically valid (no empty selector, no wildcard inside a name); a wildcard that puts one template on two methods is a conflict on both sides")
 }
 
+// healthzVariants: the service configuration AddHealthz is applied to. The
+// bindings it documents must exist afterwards whatever else the
+// configuration holds, and the configuration's own rules keep working.
+var healthzVariants = []struct {
+	name  string
+	pre   []*annotations.HttpRule // present before AddHealthz
+	post  []*annotations.HttpRule // appended afterwards
+	twice bool
+	extra string // another GET path bound to Health.Check by the configuration
+}{
+	{name: "empty"},
+	{name: "own-check-rule-before", pre: []*annotations.HttpRule{{Selector: "grpc.health.v1.Health.Check", Pattern: &annotations.HttpRule_Get{Get: "/readyz"}}}, extra: "/readyz"},
+	{name: "own-watch-rule-before", pre: []*annotations.HttpRule{{Selector: "grpc.health.v1.Health.Watch", Pattern: &annotations.HttpRule_Custom{Custom: &annotations.CustomHttpPattern{Kind: "WEBSOCKET", Path: "/watchz"}}}}},
+	{name: "own-check-rule-after", post: []*annotations.HttpRule{{Selector: "grpc.health.v1.Health.Check", Pattern: &annotations.HttpRule_Get{Get: "/livez"}}}, extra: "/livez"},
+	{name: "twice", twice: true},
+	{name: "unrelated-rule-before", pre: []*annotations.HttpRule{{Selector: "some.other.Service.Method", Pattern: &annotations.HttpRule_Get{Get: "/v1/healthz/other"}}}},
+}
+
 func healthz(r *mon.Run, rng *rand.Rand) {
+	for vi := range healthzVariants {
+		healthzVariant(r, rng, vi)
+	}
+}
+
+func healthzVariant(r *mon.Run, rng *rand.Rand, vi int) {
+	hv := healthzVariants[vi]
 	hs := lhealth.NewServer()
 	sc := &serviceconfig.Service{}
+	if len(hv.pre) > 0 {
+		sc.Http = &annotations.Http{}
+		for _, hr := range hv.pre {
+			sc.Http.Rules = append(sc.Http.Rules, proto.Clone(hr).(*annotations.HttpRule))
+		}
+	}
 	lhealth.AddHealthz(sc)
+	if hv.twice {
+		lhealth.AddHealthz(sc)
+	}
+	for _, hr := range hv.post {
+		sc.Http.Rules = append(sc.Http.Rules, proto.Clone(hr).(*annotations.HttpRule))
+	}
 	mux, err := larking.NewMux(larking.ServiceConfigOption(sc))
 	if err != nil {
 		r.Inconclusive("healthz mux: " + err.Error())
@@ -364,7 +438,7 @@ func healthz(r *mon.Run, rng *rand.Rand) {
 	names := []string{"", "svc.a", "svc.b", "x.Y", "weird name", "ü"}
 	statuses := []healthpb.HealthCheckResponse_ServingStatus{healthpb.HealthCheckResponse_SERVING, healthpb.HealthCheckResponse_NOT_SERVING, healthpb.HealthCheckResponse_UNKNOWN}
 	set := map[string]healthpb.HealthCheckResponse_ServingStatus{"": healthpb.HealthCheckResponse_SERVING}
-	for i := 0; i < r.Pick(60, 1500); i++ {
+	for i := 0; i < r.Pick(40, 600); i++ {
 		name := names[rng.Intn(len(names))]
 		if rng.Intn(3) != 0 {
 			st := statuses[rng.Intn(len(statuses))]
@@ -375,17 +449,21 @@ func healthz(r *mon.Run, rng *rand.Rand) {
 		if rng.Intn(6) == 0 {
 			q = "never.set"
 		}
-		resp := wire.Serve(mux, wire.BodyRequest("GET", "/v1/healthz", "service="+urlQueryEscape(q), nil, nil))
+		hpath := "/v1/healthz"
+		if hv.extra != "" && rng.Intn(3) == 0 {
+			hpath = hv.extra
+		}
+		resp := wire.Serve(mux, wire.BodyRequest("GET", hpath, "service="+urlQueryEscape(q), nil, nil))
 		r.Eval(1)
 		r.Count("healthz_requests", 1)
 		if resp.Panic != nil {
-			r.Violate(resp.Panic.Key(), "GET /v1/healthz panicked: "+resp.Panic.Value, map[string]any{"service": q})
+			r.Violate(resp.Panic.Key(), "GET "+hpath+" panicked: "+resp.Panic.Value, map[string]any{"service": q, "config": hv.name})
 			return
 		}
 		want, ok := set[q]
 		if !ok {
 			if resp.Code != http.StatusNotFound {
-				r.Violate("healthz:unknown-service-not-404", fmt.Sprintf("service %q was never set, got HTTP %d %s", q, resp.Code, resp.Body), map[string]any{"service": q})
+				r.Violate("healthz:unknown-service-not-404:"+hv.name, fmt.Sprintf("config %s: service %q was never set, GET %s got HTTP %d %s", hv.name, q, hpath, resp.Code, resp.Body), map[string]any{"service": q, "config": hv.name})
 			}
 			r.Distinct("healthz:unknown")
 			continue
@@ -399,10 +477,10 @@ func healthz(r *mon.Run, rng *rand.Rand) {
 			got = "UNKNOWN" // proto3 JSON omits the zero enum value
 		}
 		if resp.Code != 200 || got != want.String() {
-			r.Violate("healthz:wrong-status", fmt.Sprintf("service %q set to %s, GET /v1/healthz answered %d %s", q, want, resp.Code, resp.Body), map[string]any{"service": q, "want": want.String()})
+			r.Violate("healthz:wrong-status:"+hv.name, fmt.Sprintf("config %s: service %q set to %s, GET %s answered %d %s", hv.name, q, want, hpath, resp.Code, resp.Body), map[string]any{"service": q, "want": want.String(), "config": hv.name})
 			return
 		}
-		r.Distinct("healthz:" + want.String())
+		r.Distinct("healthz:" + hv.name + ":" + want.String())
 	}
 	// WebSocket watch over a real listener
 	srv, err := wire.StartLarking(mux, nil)
@@ -417,7 +495,7 @@ func healthz(r *mon.Run, rng *rand.Rand) {
 	defer cancel()
 	conn, err := wire.WSDial(ctx, "ws://"+srv.Addr+"/v1/healthz?service=ws.svc", nil)
 	if err != nil {
-		r.Violate("healthz:websocket-binding-missing", "WebSocket /v1/healthz could not be opened: "+err.Error(), nil)
+		r.Violate("healthz:websocket-binding-missing:"+hv.name, "config "+hv.name+": WebSocket /v1/healthz could not be opened: "+err.Error(), nil)
 		return
 	}
 	defer conn.Close()
@@ -449,7 +527,7 @@ func healthz(r *mon.Run, rng *rand.Rand) {
 			return
 		}
 	}
-	r.Distinct("healthz:websocket-watch")
+	r.Distinct("healthz:websocket-watch:" + hv.name)
 	if l := srv.ErrLog(); strings.Contains(l, "panic") {
 		r.Violate("healthz:panic-serving", l, nil)
 	}
